@@ -127,7 +127,11 @@ fn torus_mesh(k: usize, l: usize) -> (Vec<P3>, Vec<[u32; 3]>) {
 /// removed (open edges), 3 a triangle listed twice (edge with 4 sides), 4 a repeated index in a triangle, 5 an extra unused point
 /// (Euler 3), 6 one triangle flipped (the validator is orientation-blind: accepted), 7 two disjoint copies (Euler 4),
 /// 8 triangles shuffled and their indices rotated (accepted), 9 a torus (closed, Euler 0), 10 tiny buffers (0..2 points, 0..1 triangles),
-/// 11 a fan triangle re-glued: a triangle replaced by one sharing an already full edge (t-junction + open edge)
+/// 11 a fan triangle re-glued: a triangle replaced by one sharing an already full edge (t-junction + open edge),
+/// 12 a triangle removed AND an isolated point added (open edges with Euler 2: only the "unfinished triangle" test can reject),
+/// 13 a triangle replaced by a copy of another one (same V, F, E: Euler 2; t-junction and open edges),
+/// 14 a torus plus two "pillows" (two opposite triangles over an existing edge and a new point): every side in 2 or 4 triangles,
+///    Euler 2, no open edge: only the t-junction test can reject
 fn validate_case(r: &mut Rng, fam: u64) -> (Vec<P3>, Vec<[u32; 3]>) {
     let base = |r: &mut Rng| -> (Vec<P3>, Vec<[u32; 3]>) {
         for _ in 0..8 {
@@ -137,6 +141,12 @@ fn validate_case(r: &mut Rng, fam: u64) -> (Vec<P3>, Vec<[u32; 3]>) {
         (vec![P3::new(0.0, 0.0, 0.0), P3::new(1.0, 0.0, 0.0), P3::new(0.0, 1.0, 0.0), P3::new(0.0, 0.0, 1.0)], vec![[0, 2, 1], [0, 1, 3], [1, 2, 3], [2, 0, 3]])
     };
     if fam == 9 { return torus_mesh(3 + r.below(4) as usize, 3 + r.below(4) as usize); }
+    if fam == 14 {
+        let (mut p, mut t) = torus_mesh(3 + r.below(3) as usize, 3 + r.below(3) as usize);
+        for q in 0..2 { let k = r.below(t.len() as u64 - 4) as usize; let (a, b) = (t[k][q], t[k][q + 1]); let d = p.len() as u32;
+            p.push(P3::new(10.0 + q as f64, 0.5, -0.25)); t.push([a, b, d]); t.push([b, a, d]); }
+        return (p, t);
+    }
     if fam == 10 {
         let n = r.below(3) as usize; let pts: Vec<P3> = (0..n).map(|i| P3::new(i as f64, 1.0, -2.0)).collect();
         let tris = if r.bool() && n > 0 { vec![[0, (n as u32 - 1).min(1), 2]] } else { vec![] };
@@ -155,6 +165,8 @@ fn validate_case(r: &mut Rng, fam: u64) -> (Vec<P3>, Vec<[u32; 3]>) {
         7 => { let off = pts.len() as u32; let p2: Vec<P3> = pts.iter().map(|p| P3::new(p.x + 1000.0, p.y, p.z)).collect();
                let t2: Vec<[u32; 3]> = tris.iter().map(|t| [t[0] + off, t[1] + off, t[2] + off]).collect(); pts.extend(p2); tris.extend(t2); }
         8 => { shuffle(r, &mut tris); for t in tris.iter_mut() { let k = r.below(3) as usize; t.rotate_left(k); } }
+        12 => { let k = r.below(nt) as usize; tris.remove(k); pts.push(P3::new(7.5, -3.25, 11.0)); }
+        13 => { let k = r.below(nt) as usize; let k2 = (k + 1 + r.below(nt - 1) as usize) % nt as usize; tris[k] = tris[k2]; }
         11 => { let k = r.below(nt) as usize; let k2 = (k + 1 + r.below(nt - 1) as usize) % nt as usize; let o = tris[k2];
                 let far = (0..np as u32).find(|v| !o.contains(v)).unwrap_or(0); tris[k] = [o[0], o[1], far]; }
         _ => {}
@@ -549,15 +561,15 @@ pub fn gen(r: &mut Rng, thorough: bool) -> Vec<(String, String)> {
     }
     if std::env::var("VERIF_DBG").is_ok() { eprintln!("C12 remove_unused families 0..9: {:?}", fam_count); }
     // fu5: the maintainers' validator on valid hull meshes and on single mutations of them
-    let m6 = if thorough { 1200 } else { 240 };
-    let mut vfam = [0usize; 12];
+    let m6 = if thorough { 1200 } else { 300 };
+    let mut vfam = [0usize; 15];
     for it in 0..m6 {
-        let fam = (it % 12) as u64;
+        let fam = (it % 15) as u64;
         vfam[fam as usize] += 1;
         let (p, t) = validate_case(r, fam);
         v.push(("validate3".into(), format!("{} {} {}", fmt3(&p), t.len(), t.iter().map(|t| format!("{} {} {}", t[0], t[1], t[2])).collect::<Vec<_>>().join(" ")).replace("  ", " ").trim().to_string()));
     }
-    if std::env::var("VERIF_DBG").is_ok() { eprintln!("C12 validate3 families 0..11: {:?}", vfam); }
+    if std::env::var("VERIF_DBG").is_ok() { eprintln!("C12 validate3 families 0..14: {:?}", vfam); }
     // fu5: every hull must pass the maintainers' validator (clouds from all the 3-D families, incl. duplicates, coplanar subsets, slabs)
     let m7 = if thorough { 600 } else { 150 };
     for it in 0..m7 {
